@@ -3,7 +3,9 @@ pub mod alphabet;
 pub mod c01;
 pub mod c02;
 pub mod c04;
+pub mod c06;
 pub mod c11;
+pub mod c12;
 pub mod c13;
 pub mod gen;
 
@@ -19,7 +21,9 @@ pub fn run(property: &str, thorough: bool) -> Option<Vec<Part>> {
         "C01" => Some(c01::run(thorough)),
         "C02" => Some(c02::run(thorough)),
         "C04" => Some(c04::run(thorough)),
+        "C06" => Some(c06::run(thorough)),
         "C11" => Some(c11::run(thorough)),
+        "C12" => Some(c12::run(thorough)),
         "C13" => Some(c13::run(thorough)),
         _ => None,
     }
